@@ -140,6 +140,14 @@ def run(tier, seed):
                         ck.violation({"fn": "csqrt", "clause": "exact" if u > 2 else "signed_zero", "zero_sign_cell": ("x>=0,-0" if (zi == 0 and conj == -1 and zr >= 0) else "other")},
                                      "csqrt(%r) = %r, exact principal root %r (%.3g ulp)" % (z, got, exp, u), {"case": dict(c), "j": j, "conj": conj})
                         break
+                    # real (non-integer) power: z ** 0.5 is the principal root as well
+                    if j == 0 and conj == 1 and (zr, zi) != (0, 0):
+                        gp = C.cpow(z, 0.5 + 0j)
+                        up = max(abs(gp.real - exp.real), abs(gp.imag - exp.imag)) / (max(abs(exp.real), abs(exp.imag)) * ULP)
+                        note("cpow_half", up)
+                        ck.case(("cpow_half", zr, zi), True)
+                        if not up <= 16:
+                            ck.violation({"fn": "cpow", "clause": "real_exponent_half"}, "cpow(%r, 0.5) = %r, principal root %r (%.3g ulp)" % (z, gp, exp, up), {"case": dict(c)})
                     # interpreted twin, moderate exponents only (it squares its argument)
                     if abs(j) <= 200 and j % 3 == 0:
                         tw = complex(_sqrt_neg_python(z))
@@ -182,6 +190,21 @@ def run(tier, seed):
                 note("cpow_integer_exponent", u2)
                 if u2 > 64:
                     ck.violation({"fn": "cpow", "clause": "exact"}, "cpow(%r, %d) = %r, exact %d%+dj (%.3g ulp of |result|)" % (complex(a, b), k, g2, er, ei, u2), {"case": dict(c)})
+        elif kind == "cipow_neg":
+            from fractions import Fraction
+            a, b = c["base"]
+            k = c["k"]
+            ir, ii = c["inv"]
+            den = ir * ir + ii * ii
+            er, ei = float(Fraction(ir, den)), float(Fraction(-ii, den))          # 1/(ir + i ii), correctly rounded
+            mag = max(abs(er), abs(ei))
+            for name, got, lim in (("cipow", C.cipow(complex(a, b), k), 4), ("cpow", C.cpow(complex(a, b), complex(k, 0)), 64),
+                                   ("cpow", C.cpow(complex(a, b), complex(float(k), -0.0)), 64)):
+                u = max(abs(got.real - er), abs(got.imag - ei)) / (mag * ULP)
+                note(name + "_negative_exponent", u)
+                ck.case((name, "neg", a, b, k), True)
+                if not u <= lim:
+                    ck.violation({"fn": name, "clause": "negative_integer_exponent"}, "%s(%r, %d) = %r, exact 1/(%d%+dj) = %.17g%+.17gj (%.3g ulp of |result|)" % (name, complex(a, b), k, got, ir, ii, er, ei, u), {"case": dict(c)})
         elif kind == "unitpow_exact":
             a, b = c["base"]
             k = c["k"]
@@ -213,6 +236,7 @@ def run(tier, seed):
         ck.case((name, str(z)), True)
         if u > 2:
             ck.violation({"fn": name, "clause": "exact_point"}, "%s(%r) = %r, expected %r (%.3g ulp)" % (name, z, got, exp, u), {})
+    cexp_lattice(ck, C, note)
     ck.cov["traces_validated_against_impl"] = len(rows)
     ck.notes["worst_ulp_by_kind"] = {k: (round(v, 2) if v < 1e290 else "non-finite") for k, v in worst.items()}
     for c in [rows[0], next(x for x in rows if x["kind"] == "csqrt_exact"), next(x for x in rows if x["kind"] == "double_factorial" and x["n"] == 9)]:
@@ -224,6 +248,60 @@ def run(tier, seed):
     ck.assumptions += ["math.ldexp scaling by powers of two is exact (also into the subnormal range for the integer multiples used)",
                        "Annex G cells are checked on 1-4 representative values per class including subnormal and near-overflow magnitudes"]
     return ck.finish()
+
+
+def _dec_sincos(y, D, ctx):
+    """sin, cos of a float in 60-digit decimal arithmetic (Taylor series; |y| <= 40)"""
+    yy = D(y)
+    # reduce by a 70-digit pi
+    PI = D("3.14159265358979323846264338327950288419716939937510582097494459230781640628620899")
+    k = int((yy / (2 * PI)).to_integral_value())
+    r = yy - 2 * PI * k
+    s, c, term_s, term_c = D(0), D(0), r, D(1)
+    n = 0
+    while n < 200:
+        c += term_c
+        s += term_s
+        term_c = -term_c * r * r / ((2 * n + 1) * (2 * n + 2))
+        term_s = -term_s * r * r / ((2 * n + 2) * (2 * n + 3))
+        n += 1
+        if abs(term_c) < D(10) ** -70 and abs(term_s) < D(10) ** -70:
+            break
+    return s, c
+
+
+def cexp_lattice(ck, C, note):
+    """(P) cexp across the exponent range against a 60-digit decimal evaluation of e^x (cos y + i sin y): every component whose exact
+    value is a finite normal double must be returned to within 4 ulp; covers the overflow-rescaling branch (709.78 < x < 1455)
+    where only |cos y|, |sin y| << 1 keep the result finite, and results in the subnormal/underflow direction."""
+    import decimal
+    D = decimal.Decimal
+    ctx = decimal.getcontext()
+    ctx.prec = 80
+    DBL_MAX = D(1.7976931348623157e308)
+    DBL_MIN = D(2.2250738585072014e-308)
+    xs = [-740.0, -700.5, -300.25, -1.0, 0.5, 100.0, 700.0, 709.0, 709.7, 709.9, 710.2, 710.4, 710.5, 712.0, 800.0, 1000.0, 1400.0, 1454.0]
+    ys = [0.0, 1e-250, -1e-250, 1e-10, 0.05, -0.7853981633974483, 1.5, 1.5707963267948966, -1.5707963267948966, 3.0, 3.141592653589793, -4.0, 25.0]
+    n = 0
+    for x in xs:
+        ex = D(x).exp()
+        for y in ys:
+            s, c = _dec_sincos(y, D, ctx)
+            want = (ex * c, ex * s)
+            got = C.cexp(complex(x, y))
+            for part, w, g in (("real", want[0], got.real), ("imag", want[1], got.imag)):
+                if w == 0 or abs(w) > DBL_MAX or abs(w) < DBL_MIN:
+                    continue                     # not a finite normal double: outside the claim (overflow / underflow conventions)
+                wf = float(w)
+                u = abs(D(g) - w) / (D(abs(wf)) * D(ULP)) if math.isfinite(g) else D("1e300")
+                u = float(u)
+                n += 1
+                note("cexp_lattice", min(u, 1e290))
+                ck.case(("cexp", x, y, part), True)
+                if not u <= 4:
+                    ck.violation({"fn": "cexp", "clause": "value", "region": "unscaled_over_709.78" if 709.78 < x < 710.4759 else ("scaled" if x >= 710.4759 else "normal"), "part": part},
+                                 "cexp(%r).%s = %r, e^x %s(y) = %.17g (%.3g ulp)" % (complex(x, y), part, g, "cos" if part == "real" else "sin", wf, u), {"x": x, "y": y})
+    ck.notes["cexp_lattice_components"] = n
 
 
 def replay(path):
